@@ -27,3 +27,27 @@ class CannedTransport(object):
 
     def close(self):
         pass
+
+
+class LoopbackTransport(object):
+    """In-process transport: hands the request text to a dispatcher fixture and
+    returns its output; records both texts (the server boundary for History checks)."""
+
+    def __init__(self, fx):
+        self.fx = fx
+        self.exchanges = []
+        self.headers = []
+
+    def push_headers(self, headers):
+        self.headers.append(headers)
+
+    def pop_headers(self, headers):
+        self.headers.pop()
+
+    def request(self, host, handler, request_body, verbose=0):
+        out = self.fx.dispatch(request_body)
+        self.exchanges.append((request_body, out))
+        return out
+
+    def close(self):
+        pass
